@@ -62,11 +62,15 @@ Init ==
                        [] sh = 6 -> Bin("+", Bin("+", Num[n], Num[n]), Str[a])
                        [] sh = 7 -> Bin("+", Str[a], Bin("*", Num[n], Num[n])))
        [] Family = "pow" -> (      \* powers with fractional, zero, negative and float exponents, alone and in a chain
-            \E a \in 1..Len(PowBase), e \in 1..Len(PowExp), sh \in 0..3 :
+            \E a \in 1..Len(PowBase), e \in 1..Len(PowExp), sh \in 0..6 :
               tree = CASE sh = 0 -> Bin("^", PowBase[a], PowExp[e])
                        [] sh = 1 -> Bin("==", Bin("^", PowBase[a], PowExp[e]), FloatL(2, 1))
                        [] sh = 2 -> Bin("*", IntL(2), Bin("^", PowBase[a], PowExp[e]))
-                       [] sh = 3 -> Bin("^", PowBase[a], Bin("-", PowExp[e], IntL(0))))
+                       [] sh = 3 -> Bin("^", PowBase[a], Bin("-", PowExp[e], IntL(0)))
+                       \* a sign / not in front of a power applies to the power (also when the base is a literal)
+                       [] sh = 4 -> Neg(Bin("^", PowBase[a], PowExp[e]))
+                       [] sh = 5 -> Bin("<", Neg(Bin("^", PowBase[a], PowExp[e])), IntL(0))
+                       [] sh = 6 -> Bin("-", Neg(Bin("^", PowBase[a], PowExp[e])), Bin("^", PowBase[a], PowExp[e])))
        [] Family = "n3" -> (       \* depth 3 over the reduced alphabet: op3(op2(X, Y), Z) and op3(Z, op2(X, Y)), X, Y depth <= 1, Z leaf or negated leaf
             \E o3 \in 1..Len(AOps), o2 \in 1..Len(AOps), o1 \in 1..Len(AOps), i1 \in 1..3, j1 \in 1..3, u1 \in 0..2,
                o4 \in 1..Len(AOps), i4 \in 1..3, j4 \in 1..3, u4 \in 0..2, z \in 1..3, uz \in 0..1, sw \in BOOLEAN :
